@@ -1,7 +1,7 @@
 (* ===== C03 : rank reduction -- combinatorial core ===== *)
 From Coq Require Import List NArith ZArith QArith Qcanon Bool Arith Permutation.
 Import ListNotations.
-Require Import Scope ScopeP1 ScopeP2 ScopeP3 Mat MatScope MatSep MatLoop DummySpan ScopeWidth.
+Require Import Scope ScopeP1 ScopeP2 ScopeP3 Mat MatScope MatSep MatLoop DummySpan DummyInter ScopeWidth.
 
 (* Component semantics: a scoped term with numeric factors N, reduced factors R and full categorical factors F denotes the
    interval { S | N u R <= S <= N u R u F } of the subset lattice ([covers]); columns are independent iff the emitted
@@ -84,6 +84,20 @@ Example C03_width_example : let a := [97]%N in let B := [66]%N in let C := [67]%
   map (cwidth isnum nlev) (comps isnum [(a, false); (B, true); (C, false)]) = [2; 6].
 Proof. vm_compute. auto. Qed.
 
+(* the same inside an interaction, for ANY cofactor cell y (the product of the row's cells of the term's other factors): the
+   reference-level column of A times the cofactor is the cofactor column minus the other levels of A times the cofactor, and the cofactor
+   is the sum over all levels.  This is the inductive step of "rank reduction leaves the column space unchanged": A(full):rest and
+   {rest, A(reduced):rest} are expressible in one another whatever `rest` is; applying it factor by factor turns a term of full codings into
+   the components it covers (counted by C03_term_width_is_component_dimension). *)
+Theorem C03_reference_dummy_inside_interaction : forall ref others s (y : Qc), NoDup (ref :: others) -> In s (ref :: others) ->
+  (ind_cell (Some s) ref * y = y - qsum (map (fun lv => ind_cell (Some s) lv * y) others))%Qc.
+Proof. exact reference_dummy_in_interaction. Qed.
+Theorem C03_full_dummies_inside_interaction_span_cofactor : forall lvs s (y : Qc), NoDup lvs -> In s lvs ->
+  (qsum (map (fun lv => ind_cell (Some s) lv * y) lvs) = y)%Qc.
+Proof. exact full_dummies_in_interaction. Qed.
+
+Print Assumptions C03_reference_dummy_inside_interaction.
+Print Assumptions C03_full_dummies_inside_interaction_span_cofactor.
 Print Assumptions C03_term_width_is_component_dimension.
 Print Assumptions C03_enumerated_components_are_covered.
 Print Assumptions C03_covered_components_are_enumerated.
